@@ -20,10 +20,11 @@ Fixpoint rmap {A B} (f : A -> res B) (l : list A) : res (list B) :=
   | x :: r => rbind (f x) (fun y => rbind (rmap f r) (fun ys => Ok (y :: ys)))
   end.
 
-(* fixed_Dnn switches: [false] = the code as it is in /repo today (the defect is in the model); [true] = after the fix *)
-Definition fixed_D23 : bool := false.   (* tensor index on the stack dim replaces member objects *)
-Definition fixed_D26 : bool := false.   (* transpose across the stack dim: single member transpose instead of a rotation *)
-Definition fixed_D13 : bool := false.   (* _lazy_cat(out=): running offset doubles; writes go to a dense copy *)
+(* fixed_Dnn switches: [false] = the code before the fix: commits C08-D13 / C08-D23 / C08-D26 (the defect is in the model);
+   [true] = the repaired code (the state of /repo now) *)
+Definition fixed_D23 : bool := true.   (* tensor index on the stack dim replaces member objects *)
+Definition fixed_D26 : bool := true.   (* transpose across the stack dim: single member transpose instead of a rotation *)
+Definition fixed_D13 : bool := true.   (* _lazy_cat(out=): running offset doubles; writes go to a dense copy *)
 
 (* LazyStackedTensorDict._compute_batch_size  (_lazy.py:563): s = list(batch_size); s.insert(stack_dim, num_tds) *)
 Definition compute_batch_size (bs : list Z) (stack_dim : nat) (num_tds : Z) : list Z := insert_at stack_dim num_tds bs.
@@ -85,12 +86,12 @@ Definition range_elems (t : Z * Z * Z) : list Z := map (fun k => range_nth t (Z.
 
 Definition zb (b : bool) : Z := if b then 1 else 0.
 
-(* utils._is_number: a Python number OR a 0-dim tensor.  A 0-dim boolean mask therefore takes the "number" branches
-   (range(n)[tensor(True)] is range(n)[1]) although it is kept as a mask in the sub-index handed to the members. *)
+(* utils._is_number: a Python number OR a 0-dim tensor.  A 0-dim False mask therefore takes the "number" branches
+   (kept faithfully although nothing in the library produces one; 0-dim True masks are caught before, like None). *)
 Definition as_number (it : item) : option Z :=
   match it with
   | IInt i => Some i
-  | IMask [] [b] => Some (if b then 1 else 0)
+  | IMask [] [false] => Some 0          (* a 0-dim True mask is handled like None (fix C08-D30) *)
   | _ => None
   end.
 
@@ -114,6 +115,11 @@ Definition split_step (sd : nat) (n : nat) (shape : list Z) (i : nat) (it : item
   | None =>
   match it with
   | INone =>
+      Ok {| st_out := st_out s ++ [OI INone]; st_sel := st_sel s; st_num_single := st_num_single s;
+            st_num_none := st_num_none s + zb (st_cursor s <=? sd)%nat; st_num_squash := st_num_squash s;
+            st_isint := st_isint s; st_has_bool := st_has_bool s; st_nd := st_nd s; st_enc := st_enc s;
+            st_cursor := st_cursor s; st_split_dim := st_split_dim s; st_mask_loc := st_mask_loc s; st_masks := st_masks s |}
+  | IMask [] [true] =>                                   (* `idx is None or idx is True or <0-dim True mask>`: out.append(None) *)
       Ok {| st_out := st_out s ++ [OI INone]; st_sel := st_sel s; st_num_single := st_num_single s;
             st_num_none := st_num_none s + zb (st_cursor s <=? sd)%nat; st_num_squash := st_num_squash s;
             st_isint := st_isint s; st_has_bool := st_has_bool s; st_nd := st_nd s; st_enc := st_enc s;
@@ -171,7 +177,7 @@ Definition split_step (sd : nat) (n : nat) (shape : list Z) (i : nat) (it : item
           if ((cur <? sd) && (sd <? cur + nd))%nat then
             (* the mask spans the stack dim *)
             rbind (mask_unbind msh bits) (fun ms =>
-            match nth_error shape i with                  (* range(self.shape[i]) -- i is the position in the tuple *)
+            match nth_error shape cur with                (* range(self.shape[cursor]) (fix C08-D29; was shape[i]) *)
             | Some si =>
                 Ok {| st_out := st_out s ++ [OT ms]; st_sel := SRange (map Z.of_nat (seq 0 (Z.to_nat si)));
                       st_num_single := st_num_single s; st_num_none := st_num_none s; st_num_squash := squash;
@@ -203,6 +209,10 @@ Fixpoint split_loop (sd n : nat) (shape : list Z) (i : nat) (idx : list item) (s
   | [] => Ok s
   | it :: rest => rbind (split_step sd n shape i it s) (split_loop sd n shape (S i) rest)
   end.
+
+(* the dim of self the cursor stands on when it reaches position k of the (ellipsis-free) index: "mask_dim" *)
+Definition cursor_incr (it : item) : nat := match as_number it with Some _ => 1%nat | None => consumes it end.
+Definition cursor_at (idx : list item) (k : nat) : nat := fold_right (fun it acc => (cursor_incr it + acc)%nat) 0%nat (firstn k idx).
 
 Definition is_adv (it : item) : bool := match it with ITen _ _ | IMask _ _ => true | _ => false end.
 
@@ -276,6 +286,7 @@ Definition member (parts : list arr) (i : Z) : res arr :=
 
 Definition mask_any (it : item) : bool := match it with IMask _ bits => existsb (fun b => b) bits | _ => false end.
 Definition mask_all (it : item) : bool := match it with IMask _ bits => forallb (fun b => b) bits | _ => false end.
+Definition is_mask0 (it : item) : bool := match it with IMask [] _ => true | _ => false end.
 Definition mask_rank0 (ms : list item) : bool := match ms with IMask [] _ :: _ => true | _ => false end.
 
 (* torch.cat of tensordicts: _lazy_cat (out=None) when a lazy stack is among the operands, _cat otherwise *)
@@ -366,24 +377,28 @@ Section GetItem.
                    if mask_any mk then
                      rbind (member parts i) (fun m =>
                        match shape_of m with
-                       | Some [] => if mask_all mk then Ok [m]
+                       | Some [] => if mask_all mk
+                                    then (* no batch dims: apply the rest of the index (fix C08-D28; was: the member itself) *)
+                                         rbind (m_getitem m (filter (fun it => negb (is_mask0 it)) sub)) (fun x => Ok [x])
                                     else rbind (m_getitem m sub) (fun x => Ok [Squeeze cat_dim x])
                        | _ => rbind (m_getitem m sub) (fun x => Ok [Squeeze cat_dim x])
                        end)
                    else Ok []) (combine es (sp_masks sp)))
                 (fun xs => let res := concat xs in
                            match res with
-                           | [] => (* _new_lazy_unsafe(batch_size=_getitem_batch_size(self.batch_size, index)) *)
-                                   rbind (gbs_raw index shape) (fun gbs =>
-                                   (* TensorDict(batch_size=gbs, names=self.names): the names must fit *)
-                                   if Nat.eqb (List.length gbs) (List.length shape) then Ok (Stack cat_dim gbs []) else Raised)
+                           | [] => (* fix C08-D31: batch_size of the absent members = indexed batch size without the stack dim *)
+                                   rbind (convert_ellipsis index (List.length shape)) (fun idx' =>
+                                   rbind (gbs_raw idx' shape) (fun gbs =>
+                                   if (cat_dim <? List.length gbs)%nat then Ok (Stack cat_dim (remove_at cat_dim gbs) []) else Raised))
                            | x :: _ => Ok (Stack cat_dim [] res)
                            end)
         else
+          rbind (convert_ellipsis index (List.length shape)) (fun idx' =>
+          let mask_dim := cursor_at idx' (sp_mask_loc sp) in          (* fix C08-D29 (was: mask_loc itself) *)
           rbind (rmap (fun e => let '(i, sub) := e in
-                                rbind (lz_getitem self (repeat (ISl None None None) (sp_mask_loc sp) ++ [IInt i])) (fun x =>
+                                rbind (lz_getitem self (repeat (ISl None None None) mask_dim ++ [IInt i])) (fun x =>
                                 m_getitem x sub)) es)
-                (fun xs => m_cat xs cat_dim)
+                (fun xs => m_cat xs cat_dim))
       end)
     else if sp_nd sp then
       rbind (nonneg_nat (Z.of_nat sd - sp_num_single sp + sp_num_none sp)) (fun nsd =>
@@ -439,7 +454,7 @@ Definition norm_dim (d : Z) (rank : nat) : res nat :=
 
 (* rotation the dense transpose needs on the members when the stack dim is one of the two dims (the D26 fix) *)
 Definition rot_perm (rank lo hi : nat) (left : bool) : list nat :=
-  (* identity outside [lo, hi]; inside: left rotation [lo+1 .. hi, lo] or right rotation [hi, lo .. hi-1] *)
+  (* the list handed to member.permute: identity outside [lo, hi]; inside, [lo+1 .. hi, lo] (left) or [hi, lo .. hi-1] *)
   map (fun k => if ((k <? lo) || (hi <? k))%nat then k
                 else if left then (if Nat.eqb k hi then lo else S k)
                 else (if Nat.eqb k lo then hi else (k - 1)%nat)) (seq 0 rank).
@@ -459,7 +474,9 @@ Fixpoint lz_transpose (fuel : nat) (a : arr) (dim0 dim1 : Z) : res arr :=
           let d1 := Nat.max (fst dd) (snd dd) in
           if Nat.eqb d0 d1 then Ok a else
           if fixed_D26 && (Nat.eqb d0 sd || Nat.eqb d1 sd) && negb (Nat.eqb (S d0) d1) then
-            let p := if Nat.eqb d0 sd then rot_perm (rank - 1) d0 (d1 - 1) true else rot_perm (rank - 1) d0 (d1 - 1) false in
+            (* _transpose after fix C08-D26: dim0 = stack dim: perm = [.., dim1-1, dim0 .. dim1-2, ..];
+                                           dim1 = stack dim: perm = [.., dim0+1 .. dim1-1, dim0, ..] *)
+            let p := if Nat.eqb d0 sd then rot_perm (rank - 1) d0 (d1 - 1) false else rot_perm (rank - 1) d0 (d1 - 1) true in
             rbind (rmap (fun m => Ok (Perm p m)) parts) (fun ms => Ok (Stack (if Nat.eqb d0 sd then d1 else d0) bs0 ms))
           else
           let '(nsd, mop) := lz_transpose_plan sd d0 d1 in
@@ -645,10 +662,10 @@ Fixpoint lz_split (fuel : nat) (a : arr) (sizes : list Z) (isint : bool) (dim : 
             let szs := if isint then (match sizes with k :: _ => if k =? 0 then [] else int_split_sizes (lenZ parts) k | [] => [] end) else sizes in
             if isint && (match sizes with k :: _ => k <=? 0 | [] => true end) then Raised else
             (* slices of the member list; a zero size yields an EMPTY lazy stack built from batch_size *)
-            (* a zero size: LazyStackedTensorDict(batch_size = self.batch_size with 0 at stack_dim, stack_dim) -- the
-               constructor then inserts the member count 0 AGAIN (quirk kept: Stack sd (full shape) []) *)
+            (* a zero size: LazyStackedTensorDict(batch_size = self.batch_size without the stack dim, stack_dim)
+               (fix C08-D32; before, the full batch size with a 0 was passed and the constructor inserted the count 0 again) *)
             let zshape := firstn sd shape ++ 0 :: skipn (S sd) shape in
-            Ok (map (fun ps => match ps with [] => Stack sd zshape [] | _ => Stack sd bs0 ps end)
+            Ok (map (fun ps => match ps with [] => Stack sd (remove_at sd zshape) [] | _ => Stack sd bs0 ps end)
                     ((fix go (szs : list Z) (l : list arr) : list (list arr) :=
                         match szs with
                         | [] => []
